@@ -310,6 +310,11 @@ class Reader:
             elif isinstance(valnode, (ast.Tuple, ast.List)) and len(valnode.elts) == len(t.elts):
                 for el, vn in zip(t.elts, valnode.elts):
                     self.bind(el, self.value(vn, env, loop), env, loop, vn)
+            elif isinstance(valnode, ast.Call) and U(valnode.func) == 'divmod' and len(valnode.args) == 2 and len(t.elts) == 2:
+                x, c = valnode.args
+                for el, op in zip(t.elts, (ast.FloorDiv(), ast.Mod())):
+                    vn = ast.BinOp(left=x, op=op, right=c)
+                    self.bind(el, self.value(vn, env, loop), env, loop, vn)
             elif val[0] == 'dynreads' and len(t.elts) == 2:
                 # sub, rest = data[0], data[1:]
                 pass
@@ -341,13 +346,28 @@ class Reader:
             return 'words(%s x %s @%s)' % (val[1][0], val[1][1], val[2])
         return val[1]
 
+    def _neg_guard(self, test, env):
+        inv = {ast.Eq: ast.NotEq, ast.NotEq: ast.Eq, ast.Lt: ast.GtE, ast.GtE: ast.Lt, ast.Gt: ast.LtE, ast.LtE: ast.Gt}
+        if isinstance(test, ast.Compare) and len(test.ops) == 1 and type(test.ops[0]) in inv:
+            return ' if ' + self.canon(ast.Compare(left=test.left, ops=[inv[type(test.ops[0])]()], comparators=test.comparators), env)
+        if isinstance(test, ast.UnaryOp) and isinstance(test.op, ast.Not):
+            return ' if ' + self.canon(test.operand, env)
+        return ' ifnot ' + self.canon(test, env)
+
     def block(self, stmts, env, loop, guard=''):
-        for s in stmts:
+        for si, s in enumerate(stmts):
+            if isinstance(s, ast.If) and not s.orelse and s.body and isinstance(s.body[-1], ast.Continue) and loop is not None:
+                # guard clause inside a loop: the rest of the iteration runs under the negated test
+                self.block(s.body[:-1], dict(env), loop, (guard + ' if ' + self.canon(s.test, env)).strip())
+                self.block(stmts[si + 1:], env, loop, (guard + self._neg_guard(s.test, env)).strip())
+                return
             if isinstance(s, ast.Expr):
                 c = s.value
                 if isinstance(c, ast.Call) and isinstance(c.func, ast.Attribute) and c.func.attr in ('append', 'extend') and c.args:
                     tgt = c.func.value
                     v = self.value(c.args[0], env, loop)
+                    if isinstance(tgt, ast.Name) and isinstance(env.get(tgt.id), tuple) and env[tgt.id][0] == 'ALIAS':
+                        self.s.appends.append((env[tgt.id][1], self.show(v), loop, guard))
                     if isinstance(tgt, ast.Attribute) and U(tgt.value) == 'self':
                         self.s.appends.append((tgt.attr, self.show(v), loop, guard))
                     elif isinstance(tgt, ast.Subscript) and isinstance(tgt.value, ast.Attribute) and U(tgt.value.value) == 'self':
@@ -359,6 +379,14 @@ class Reader:
                 v = self.value(s.value, env, loop)
                 for t in s.targets:
                     self.bind(t, v, env, loop, s.value)
+                # a local that names the same list as self.X:  xs = self.X = []   /   xs = self.X
+                attrs = [t.attr for t in s.targets if isinstance(t, ast.Attribute) and U(t.value) == 'self']
+                if isinstance(s.value, ast.Attribute) and U(s.value.value) == 'self':
+                    attrs.append(s.value.attr)
+                if attrs and (isinstance(s.value, (ast.List, ast.Attribute)) or (isinstance(s.value, ast.Call) and U(s.value.func) == 'list' and not s.value.args)):
+                    for t in s.targets:
+                        if isinstance(t, ast.Name):
+                            env[t.id] = ('ALIAS', attrs[0])
                 continue
             if isinstance(s, ast.AugAssign) and isinstance(s.target, ast.Name):
                 cur = env.get(s.target.id)
@@ -439,6 +467,16 @@ class Reader:
                         env[k] = a
                     elif isinstance(a, Poly) and isinstance(b, Poly):
                         c = None
+                        try:
+                            tp = self.poly(s.test, env)
+                        except Exception:
+                            tp = None
+                        import re as _re
+                        if tp is not None and len(tp.t) == 1 and list(tp.t.values()) == [1] and len(list(tp.t)[0]) == 1 and (a - b) == Poly.const(1):
+                            mm = _re.match(r'^mod\((.*), (\d+)\)$', list(tp.t)[0][0])
+                            if mm:
+                                env[k] = b + Poly.atom('nzmod%s(%s)' % (mm.group(2), mm.group(1)))
+                                continue
                         try:
                             sub = {kk: vv for kk, vv in env.items() if isinstance(vv, (Poly, ast.AST))}
                             t = s.test
